@@ -264,6 +264,11 @@ theorem injector_neither_loses_nor_duplicates_a_task (cap : Nat) (hc : 0 < cap) 
   have := run_conserves (fresh cap) ops (fresh_inv cap hc) ho
   simpa [held, fresh] using this
 
+/-- **injector_operations_are_critical_sections** — read from the source on every run: `pop_bucket`, `push_bucket` and
+`insert_task` change the vector and the emptiness flag inside one critical section each (the mutex guard lives to the
+end of the function), which is what makes an operation one step of M-INJ under concurrent workers. -/
+theorem injector_operations_are_critical_sections : Extracted.injOperationsAreCriticalSections = true := by decide
+
 -- non-vacuity: capacity 3, four single tasks (the full bucket is swapped for a new one), one pop
 example : (run (fresh 3) [.insert 1, .insert 2, .insert 3, .insert 4, .pop]).inner = [[4]] ∧
     out (run (fresh 3) [.insert 1, .insert 2, .insert 3, .insert 4]) .pop = [1, 2, 3] := by decide
